@@ -25,6 +25,36 @@ META = {
               'Decides necessary conditions, not bit-exact reproducibility.',
         note='Trusted: numpy view/copy table; results of unmodelled library calls may alias any argument (reported as unresolved, never as a violation). Cython variants not analysed.',
         design='DESIGN.md section 3 (C20)'),
+    'C02': dict(
+        technique='static analysis: dependence analysis of log_likelihood, structural recognition of the EM loops (gated SSA), MM pairing of quadratic form and posterior',
+        level='Necessary conditions of monotone EM are decided: the reported log-likelihood includes the stored weights and is a class-axis log-sum of the component log-pdf; '
+              'in the three cACG-based trainers the surrogate weight and the posterior stem from the same E-step call per iteration (aligner applied to both, ones at the start); '
+              'weight and component updates use the same saliency-weighted affiliation; the E-step uses the model\'s own weights; Gaussian/cACG densities have the right structure. '
+              'Monotonicity along trajectories (a numerical statement) is NOT decided.',
+        note='Trusted: MM derivation of the cACG update, class axis -2. Shares rule instances with C01, C07, C08.',
+        design='DESIGN.md section 3 (C02)'),
+    'C03': dict(
+        technique='static analysis: einsum contraction-structure rules, eigenpair-selection direction (R-SEL), signed-term linearisation of log_pdf (R-LIN)',
+        level='The orientation conditions whose inversion destroys the class ranking while keeping shapes are decided: reciprocal eigenvalues and U diag U^H structure of the cACG '
+              'quadratic form, principal (last) eigh eigenpair on the eigenvector column axis, signs of concentration / normaliser / determinant terms, row-index whitening, '
+              'exponent-weighted additive streams. The fixed-point behaviour itself is not decided.',
+        note='Trusted: numpy.linalg.eigh ascending order, scikit-learn precision Cholesky contract, density definitions.',
+        design='DESIGN.md section 3 (C03)'),
+    'C07': dict(
+        technique='static analysis: signed-term linearisation of return expressions through reaching definitions (R-LIN) + einsum contraction-structure rules (R-EIN)',
+        level='For all 8 distribution classes the linearised log_pdf / log-normaliser is checked atom by atom (sign, numeric coefficient, symbolic factors D, kappa, 1/2, Bessel order, '
+              '1F1 arguments, sphere-area factor, partial-fraction form) and every quadratic / inner-product form on its contraction structure (conjugation, row index of the '
+              'precision Cholesky factor, per-feature scaling, reciprocal eigenvalues). Numerical values of special functions and integration to one are NOT decided.',
+        note='Trusted: density definitions, scikit-learn factor contract Sigma^-1 = P P^T. An unrecognised atom is unresolved (floor on recognised atoms), never an alarm.',
+        design='DESIGN.md section 3 (C07)'),
+    'C08': dict(
+        technique='static analysis: structural recognition of EM loops on gated-SSA graphs (R-LOOP), interprocedural dependence analysis of M-steps (R-DEP), sibling agreement (R-SIB), einsum structure of estimators',
+        level='The alternation clause is decided structurally for all 7 trainers (range(iterations), one unconditional M-step bound to the returned variable, one E-step on the current '
+              'model under `model is not None` before it, aligner only in between, affiliation flow); saliency / weight_constant_axis / affiliation_eps plumbing for all 7 M-steps; '
+              'fit_predict forwards every option by name; weighted estimators contract the shared observation index and divide by the saliency mass; Tyler weight and factor D; vMF clipping; '
+              'principal eigenpair. Closeness to the defining formulas / convergence are NOT decided.',
+        note='Trusted: parameter naming of the estimators. Shares rule instances with C01-C03.',
+        design='DESIGN.md section 3 (C08)'),
 }
 
 ALL = sorted(META)
